@@ -393,11 +393,12 @@ pub fn obl_action_velocity(s: &mut Src, ctx: &mut Ctx, df18: bool) {
 }
 
 /// any other ME type in DF17/DF18: only the count changes
-pub fn obl_action_other_me(s: &mut Src, ctx: &mut Ctx, df18: bool) {
+pub fn obl_action_other_me(s: &mut Src, ctx: &mut Ctx, df18: bool, which: u8) {
     let (pre, vacant) = setup_ghost(s, ctx, KA, false);
     let mut d = [0u8; 6];
     s.fill(&mut d);
-    let me = if s.bool() { ME::NoPosition(d) } else { ME::AircraftOperationalCoordination(d) };
+    // the payload kind is a concrete parameter (a symbolic enum variant makes CBMC walk every drop glue)
+    let me = if which == 0 { ME::NoPosition(d) } else if which == 1 { ME::AircraftOperationalCoordination(d) } else { ME::SurfaceSystemStatus(d) };
     let frame = mk_frame(df18, KA, KB, me);
     let mut a = Airplanes::new();
     let r = a.action(frame, (s.f64(), s.f64()), s.f64());
